@@ -24,17 +24,28 @@ import (
 	"errors"
 	"fmt"
 	"math/big"
+	"os"
+	"strings"
 	"testing"
 	"time"
 
 	"github.com/emmansun/gmsm/sm2"
+	"github.com/emmansun/gmsm/smx509"
 	"verif/harness/gen"
 	"verif/harness/h"
 	"verif/harness/ref"
 	"verif/harness/testkeys"
 )
 
-func TestMain(m *testing.M) { h.Main(m, ref.SelfTestSM3, ref.SelfTestSM2, selfTestVerifier) }
+func TestMain(m *testing.M) {
+	h.Observe("build", buildTag)
+	h.Observe("GODEBUG", os.Getenv("GODEBUG")) // x509sha1 must not be set: SHA-1 certificates are expected to be refused
+	h.Main(m, ref.SelfTestSM3, ref.SelfTestSM2, selfTestVerifier)
+}
+
+// sha1Allowed: GODEBUG=x509sha1=1 (never set by the configurations of this
+// property) documents that SHA-1 certificates are accepted again.
+var sha1Allowed = strings.Contains(","+os.Getenv("GODEBUG")+",", ",x509sha1=1,")
 
 // refInstant is the fixed reference instant of every validity window and
 // verification time in this package (never time.Now).
@@ -114,7 +125,7 @@ func sigAlgFor(kt, variant int) x509.SignatureAlgorithm {
 	panic("harness: bad key type")
 }
 
-const sm2WithSM3 = x509.SignatureAlgorithm(99) // smx509.SM2WithSM3 (documented constant)
+const sm2WithSM3 = smx509.SM2WithSM3
 
 // effectiveAlg is the algorithm the documentation promises for a request.
 func effectiveAlg(kt int, req x509.SignatureAlgorithm) x509.SignatureAlgorithm {
